@@ -531,3 +531,20 @@ M('c07e-layer-counter-reset-per-token', 'C07', 'break', TX,
   '            int layers = 0;\n            htp_decompressor_t *comp = NULL;', '            htp_decompressor_t *comp = NULL;', 'C07.e',
   edits=[(TX, '            int layers = 0;\n            htp_decompressor_t *comp = NULL;', '            htp_decompressor_t *comp = NULL;'),
          (TX, '                enum htp_content_encoding_t cetype = HTP_COMPRESSION_NONE;\n\n                /* check depth limit', '                enum htp_content_encoding_t cetype = HTP_COMPRESSION_NONE;\n                int layers = 0;\n\n                /* check depth limit')])
+
+# ---------------- C01.b (zone domain)
+M('c01b-ctx-guard-off-by-one', 'C01', 'break', 'htp/htp_config.c',
+  'void htp_config_set_backslash_convert_slashes(htp_cfg_t *cfg, enum htp_decoder_ctx_t ctx, int enabled) {\n    if (ctx >= HTP_DECODER_CONTEXTS_MAX) return;',
+  'void htp_config_set_backslash_convert_slashes(htp_cfg_t *cfg, enum htp_decoder_ctx_t ctx, int enabled) {\n    if (ctx > HTP_DECODER_CONTEXTS_MAX) return;', 'C01.b')
+M('c01b-backward-scan-starts-at-len', 'C01', 'break', 'htp/htp_request_generic.c',
+  '            pos = len - 1;\n            while ((pos > start) && (!htp_is_space(data[pos]))) pos--;', '            pos = len;\n            while ((pos > start) && (!htp_is_space(data[pos]))) pos--;', 'C01.b')
+M('c01b-char-at-end-guard', 'C01', 'break', 'htp/bstr.c',
+  '    if (pos >= len) return -1;\n    return data[len - 1 - pos];', '    if (pos > len) return -1;\n    return data[len - 1 - pos];', 'C01.b')
+M('c01b-handled-flag-rewritten-keep', 'C01', 'keep', 'htp/htp_util.c',
+  '                // Handle standard URL encoding\n                if (!handled) {', '                // Handle standard URL encoding\n                if (handled == 0) {')
+M('c01b-percent-needs-one-more-keep', 'C01', 'keep', 'htp/htp_util.c',
+  '        if (c == \'%\') {\n            if (rpos + 2 < len) {\n                int handled = 0;\n\n                if (cfg->decoder_cfgs[HTP_DECODER_URL_PATH].u_encoding_decode) {',
+  '        if (c == \'%\') {\n            if (rpos + 3 <= len) {\n                int handled = 0;\n\n                if (cfg->decoder_cfgs[HTP_DECODER_URL_PATH].u_encoding_decode) {')
+M('c01b-percent-guard-off-by-one', 'C01', 'break', 'htp/htp_util.c',
+  '        if (c == \'%\') {\n            if (rpos + 2 < len) {\n                int handled = 0;\n\n                if (cfg->decoder_cfgs[HTP_DECODER_URL_PATH].u_encoding_decode) {',
+  '        if (c == \'%\') {\n            if (rpos + 2 <= len) {\n                int handled = 0;\n\n                if (cfg->decoder_cfgs[HTP_DECODER_URL_PATH].u_encoding_decode) {', 'C01.b')
